@@ -69,6 +69,10 @@ def t_brush_ent(v: VMF) -> None:
 
 def t_point_ent(v: VMF) -> None:
     v.create_ent('info_target', origin='16 32 48', angles='10 20 30', targetname='tgt')
+    # nearly vertical orientations with roll, outside the library's gimbal-lock zone (horizontal length 0.017 / 0.0087 > 0.001)
+    v.create_ent('info_target', origin='0 0 8', angles='89 40 25', targetname='steep_up')
+    v.create_ent('info_target', origin='0 8 0', angles='-89.5 10 300', targetname='steep_down')
+    v.create_ent('info_target', origin='8 0 0', angles='80 0 45', targetname='steep_80')
 
 
 def t_pitch_ent(v: VMF) -> None:
@@ -176,6 +180,7 @@ PLACEMENTS = {
     'tiny': ((1, 2, 3), (359.99999999999994, 1e-14, 0)),
     'flip_roll': ((4, 0, 0), (0, 45, 180)),          # mounted upside down: up axis along -Z
     'flip_pitch': ((0, 4, 0), (180, 30, 0)),
+    'tilt': ((0, 0, 4), (8.7, 0, 0)),                # brings a template pitch of 80 to 88.7
 }
 FIXUP_TABLES = {
     'none': [],
